@@ -25,9 +25,12 @@ Definition run_case (line : bytes) : bytes :=
   else if bytes_eqb kind $"dns" then
     show_res (fun x => x) (do rs <- parse_field fs 1; Ok (class_of (get_dns_basic_rule rs)))
   else
-    (* engine: fields 3,4,5 = matched rules for the request, for the referrer, for the DNS request *)
+    (* engine: fields 3,4,5 = matched rules for the request, for the referrer, for the DNS request;
+       fields 6,7 = for a document request whose referrer is its own URL, and for that referrer *)
     show_res (fun x => x)
       (do m1 <- parse_field fs 3; do m2 <- parse_field fs 4; do m3 <- parse_field fs 5;
+       do m4 <- parse_field fs 6; do m5 <- parse_field fs 7;
        Ok (class_of (get_basic_result (new_matching_result m1 m2)) ++ $";" ++
            class_of (get_basic_result (new_matching_result m1 [])) ++ $";" ++
-           class_of (get_dns_basic_rule m3))).
+           class_of (get_dns_basic_rule m3) ++ $";" ++
+           class_of (get_basic_result (new_matching_result m4 m5)))).
